@@ -1,9 +1,101 @@
 (* C03 -- date + relativedelta follows the documented replace / shift / clip / duration / weekday
-   order.  Statements only; proofs are in rd/RdAddThm.v. *)
+   order.  Statements only; proofs are in rd/RdAddThm.v, rd/RdAddThm2.v, rd/RdYdayThm.v. *)
 From Coq Require Import ZArith List Bool.
-From V Require Import base.Cal gen.RdTables rd.RdBase rd.RdModel rd.RdSpec rd.RdAddThm.
+From V Require Import base.Cal gen.RdTables rd.RdBase rd.RdModel rd.RdSpec rd.RdAddThm rd.RdDiffThm
+  rd.RdAddThm2 rd.RdYdayThm.
 Open Scope Z_scope.
 
-Theorem C03_promotion_iff_has_time : forall d, has_time d = carries_time d.
-Proof. exact has_time_carries_time. Qed.
+(* dt + delta = the documented four steps (replace; whole-month shift with the day clipped;
+   one exact duration incl. leapdays; n-th weekday by counting), both failing exactly together.
+   Guard wf_rd: relative fields normalised (as every constructed delta is, C03_mk_normalised),
+   absolute year/month/day not 0 (see RdAddThm.add_dt_spec_guard_needed: the code's
+   [self.year or other.year] treats 0 as absent), month in 1..12, weekday MO..SU. *)
+Theorem C03_add_dt_spec : forall d o, wf_rd d = true -> valid_dt o = true ->
+  res_opt (add_dt d o) = spec_add d o.
+Proof. exact add_dt_spec. Qed.
+Print Assumptions C03_add_dt_spec.
+
+(* every delta built by the keyword constructor satisfies the normalisation part of the guard *)
+Theorem C03_mk_normalised : forall k d, mk k = Ok d -> norm_rel (rel d) = true.
+Proof. exact mk_normalised. Qed.
+Print Assumptions C03_mk_normalised.
+
+(* the same result stated for the values GIVEN to the constructor (un-normalised): months as one
+   total, the other relative fields as one duration in microseconds, promotion exactly when the
+   sub-day part of that duration is not a whole number of days *)
+Theorem C03_add_fix_spec_raw : forall raw o, wf_rd (fix_rd raw) = true -> valid_dt o = true ->
+  res_opt (add_dt (fix_rd raw) o) = spec_add_raw raw o.
+Proof. exact add_fix_spec_raw. Qed.
+Print Assumptions C03_add_fix_spec_raw.
+
+Theorem C03_mk_add_spec_raw : forall k d o,
+  k_yearday k = None -> k_nlyearday k = None -> mk k = Ok d ->
+  wf_rd d = true -> valid_dt o = true ->
+  exists w, conv_wd (k_wd k) = Ok w /\ res_opt (add_dt d o) = spec_add_raw (raw_of_kw k w) o.
+Proof. exact mk_add_spec_raw. Qed.
+Print Assumptions C03_mk_add_spec_raw.
+
+(* years/months only: the month index moves by exactly 12*years+months, the day is clipped to the
+   target month (never spills), the time of day is untouched; error iff outside years 1..9999 *)
+Theorem C03_month_shift_exact : forall y mo o, Z.abs mo <= 11 -> valid_dt o = true ->
+  res_opt (add_dt (mkrd (mkrel y mo 0 0 0 0 0) 0 abs0 None) o) =
+  if valid_dt (shifted o (12 * y + mo)) then Some (shifted o (12 * y + mo)) else None.
+Proof. exact month_shift_exact. Qed.
+Print Assumptions C03_month_shift_exact.
+
+Theorem C03_clip_never_spills : forall y mo o r, Z.abs mo <= 11 -> valid_dt o = true ->
+  add_dt (mkrd (mkrel y mo 0 0 0 0 0) 0 abs0 None) o = Ok r ->
+  mi r = mi o + (12 * y + mo) /\
+  day_of r = Z.min (day_of o) (dim (fst (ym_of r)) (snd (ym_of r))) /\
+  time_of r = time_of o.
+Proof. exact clip_never_spills. Qed.
+Print Assumptions C03_clip_never_spills.
+
+(* weekday(+1) / weekday(-1) / weekday without n: no move when steps 1-3 already land on it *)
+Theorem C03_weekday_noop_when_on_day : forall d o ret w n,
+  add_dt (no_wd d) o = Ok ret -> wd d = Some (w, n) -> (eff_n n = 1 \/ eff_n n = -1) ->
+  py_weekday ret = w -> add_dt d o = Ok ret.
+Proof. exact weekday_noop_when_on_day. Qed.
+Print Assumptions C03_weekday_noop_when_on_day.
+
+(* a date operand is promoted to a datetime exactly when the delta carries time information *)
+Theorem C03_promotion_iff_has_time : forall d o r, add_dt d o = Ok r ->
+  is_datetime r = carries_time d || is_datetime o.
+Proof. exact promotion_iff_has_time. Qed.
 Print Assumptions C03_promotion_iff_has_time.
+
+(* addition is independent of operand order; subtraction is addition of the negation *)
+Theorem C03_radd_eq_add : forall d o, radd d o = add_dt d o.
+Proof. exact radd_eq_add. Qed.
+Print Assumptions C03_radd_eq_add.
+
+Theorem C03_sub_is_add_neg : forall d o, rsub d o = add_dt (neg d) o.
+Proof. exact sub_is_add_neg. Qed.
+Print Assumptions C03_sub_is_add_neg.
+
+Theorem C03_sub_spec : forall d o, wf_rd d = true -> valid_dt o = true ->
+  res_opt (rsub d o) = spec_add (negated d) o.
+Proof. exact sub_spec. Qed.
+Print Assumptions C03_sub_spec.
+
+(* yearday / nlyearday through the ydayidx table regenerated from /repo (date operands).
+   Guard n <= 365: yearday = 366 is refuted below (finding F-C03-yearday366). *)
+Theorem C03_yearday_spec : forall n y m0 d0, 1 <= n <= 365 -> valid_ymd y m0 d0 = true ->
+  exists d yy mm dd,
+    mk (kw_yearday n) = Ok d /\ spec_yearday_date y n = Some (yy, mm, dd) /\
+    add_dt d (PD y m0 d0) = Ok (PD yy mm dd).
+Proof. exact yearday_spec. Qed.
+Print Assumptions C03_yearday_spec.
+
+Theorem C03_nlyearday_spec : forall n y m0 d0, 1 <= n <= 365 -> valid_ymd y m0 d0 = true ->
+  exists d mm dd,
+    mk (kw_nlyearday n) = Ok d /\ spec_nlyearday_date y n = Some (y, mm, dd) /\
+    add_dt d (PD y m0 d0) = Ok (PD y mm dd).
+Proof. exact nlyearday_spec. Qed.
+Print Assumptions C03_nlyearday_spec.
+
+Theorem C03_yearday_366_leap_refuted :
+  exists y d, is_leap y = true /\ valid_ymd y 1 1 = true /\ mk (kw_yearday 366) = Ok d /\
+    add_dt d (PD y 1 1) = Ok (PD y 12 30) /\ spec_yearday_date y 366 = Some (y, 12, 31).
+Proof. exact yearday_366_leap_refuted. Qed.
+Print Assumptions C03_yearday_366_leap_refuted.
